@@ -139,7 +139,9 @@ func run(c Case) *pbt.Fail {
 			if chain, f = agreeChain(m, "refresh"); f != nil {
 				return f
 			}
-		case "derive":
+		case "derive", "derive-sibling":
+			// "derive-sibling": the child is checked like any other but the path stays at the parent, so that the next
+			// step derives from the SAME parent configuration objects again
 			parent := m.Pub
 			wantChild, wantChain, ok := ref.CKDpub(parent, chain, st.Index)
 			if !ok {
@@ -168,7 +170,9 @@ func run(c Case) *pbt.Fail {
 			if is := proto.Consistent(d); is != nil {
 				return pbt.Failf("derived-sharing:"+is.Sig, fmt.Sprintf("after derivation at index %d: %s", st.Index, is.Detail))
 			}
-			m, chain = d, wantChain
+			if st.Op == "derive" {
+				m, chain = d, wantChain
+			}
 		}
 	}
 	if c.Sign {
@@ -209,6 +213,11 @@ var prop = pbt.Define(pbt.Prop[Case]{Kind: "derivation-history", Run: run, Class
 			if s.Index == 0 || s.Index == 1 || s.Index == 1<<31-1 {
 				boundary = true
 			}
+		} else if s.Op == "derive-sibling" {
+			shape += "S"
+			if s.Index == 0 || s.Index == 1 || s.Index == 1<<31-1 {
+				boundary = true
+			}
 		} else {
 			shape += "R"
 		}
@@ -225,9 +234,9 @@ func gen(t *rapid.T, scheme string, maxN int, allowRefresh bool) Case {
 		c.T = rapid.IntRange(0, c.N-1).Draw(t, "t")
 	}
 	c.Family = rapid.SampledFrom(fix.UTF8Families).Draw(t, "family")
-	n := rapid.IntRange(1, 3).Draw(t, "steps")
+	n := rapid.IntRange(1, 4).Draw(t, "steps")
 	for i := 0; i < n; i++ {
-		op := "derive"
+		op := rapid.SampledFrom([]string{"derive", "derive", "derive-sibling"}).Draw(t, "op")
 		if allowRefresh && rapid.IntRange(0, 4).Draw(t, "refresh") == 0 {
 			op = "refresh"
 		}
